@@ -24,10 +24,10 @@ META = {
         "generator body)/visit_Yield (output executed)", "ptera.probe.Probe._enter/_exit",
     ],
     "bounds": {"quick": {"history_length": "<= 4 operations over 9 kinds (top-level driver; 5 after the prefixes enter/create/next), <= 5 (driver inside an instrumented "
-                                                   "function); two generators of 2 yields each"},
+                                                   "function); two generators (2 yields, 1 yield)"},
                "thorough": {"history_length": "<= 5 (top-level driver), <= 6 (enclosed driver)"}},
     "out_of_scope": ["dropping the last reference (garbage collection) -- only explicit close() is driven",
-                     "more than two generators / one pair of overlays", "generators resumed from another thread"],
+                     "more than two generators / two independently toggled overlays", "generators resumed from another thread"],
     "assumptions": ["transform executed natively", "each path runs in a copy of the context",
                     "probe activation/deactivation (concrete data only) executed natively; calls, generator steps and event "
                     "delivery are executed under the tracer"],
@@ -38,8 +38,8 @@ def a_fn(v):
     a = v
     return a
 
-def gen(k):
-    for i in range(2):
+def gen(k, n):
+    for i in range(n):
         r = a_fn(k + i)
         yield r
 
@@ -48,7 +48,7 @@ def drv(E):
     out = []
     for op in E:
         if op == 3 or op == 4:
-            gs[op - 3] = gen(100 * (op - 2))
+            gs[op - 3] = gen(100 * (op - 2), 5 - op)
         elif op == 5 or op == 6:
             try:
                 out.append(next(gs[op - 5]))
@@ -100,6 +100,9 @@ def build(case):
 
         msgs = []
         ov = None  # (probe_gen, probe_plain, list_gen, list_plain, roots)
+        ov2 = None  # second, independently toggled overlay: (probe on `a_fn > a`, list, roots)   [ops 10 / 11]
+        exp_o2 = []
+        two = bool(p.get("two"))
         ended_roots = []  # handler objects of overlays that have ended
         ended_lists = []  # (event list of an ended overlay's probe, its length when the overlay ended)
         gens = {0: None, 1: None}  # k -> [generator, state, crossed]  state: 'new' | 'susp' | 'done'
@@ -109,7 +112,7 @@ def build(case):
         ncalls = 0
         try:
             for step, opsym in enumerate(ops):
-                op = pick(opsym, 10)
+                op = pick(opsym, 12 if two else 10)
                 if step == 0 and first is not None:
                     assume(op == first)
                 if step == 1 and second is not None:
@@ -145,12 +148,34 @@ def build(case):
                     for g in gens.values():
                         if g and g[1] == "susp":
                             g[2] = True
+                elif op == 10:
+                    assume(ov2 is None)
+                    lq = []
+                    with NoTracing():
+                        pq = probing(select("a_fn > a", env=ns))
+                        pq.__enter__()
+                        pq.subscribe(lambda d: lq.append(d["a"]))
+                    ov2 = (pq, lq, list(pq._ol.handlers))
+                    exp_o2 = []
+                    for g in gens.values():
+                        if g and g[1] == "susp":
+                            g[2] = True
+                elif op == 11:
+                    assume(ov2 is not None)
+                    with NoTracing():
+                        ov2[0].__exit__(None, None, None)
+                    ended_roots += ov2[2]
+                    ended_lists.append((ov2[1], len(ov2[1])))
+                    ov2 = None
+                    for g in gens.values():
+                        if g and g[1] == "susp":
+                            g[2] = True
                 elif op in (3, 4):
                     k = op - 3
                     assume(gens[k] is None)
                     # [3]: overlay instance under which the generator was created (it runs the code installed at that
                     # moment) AND first advanced; anything else is "not stated" for the gen-selector
-                    gens[k] = [gen(base + 100 * k), "new", False, None, ov]
+                    gens[k] = [gen(base + 100 * k, 2 - k), "new", False, None, ov]  # generator 1: two yields, generator 2: one
                 elif op in (5, 6):
                     k = op - 5
                     assume(gens[k] is not None and gens[k][1] != "done")
@@ -162,6 +187,8 @@ def build(case):
                         want = base + 100 * k + genlog[k]
                         genlog[k] += 1
                         soft(val == want, "C09:value:yielded", "generator yielded a wrong value")
+                        if ov2 is not None:
+                            exp_o2.append(want)
                         if ov is not None:
                             exp_plain.append(want)
                             if gens[k][3] is ov:
@@ -184,13 +211,15 @@ def build(case):
                     ncalls += 1
                     if ov is not None:
                         exp_plain.append(v)
+                    if ov2 is not None:
+                        exp_o2.append(v)
                 # ---------------- model: what must hold after this step
                 susp = any(g and g[1] == "susp" for g in gens.values())
                 crossed = any(g and g[2] for g in gens.values())
                 sit = "gen-suspended" if susp else ("gen-finished-across-overlay-boundary" if crossed else "no-gen-in-flight")
                 cur = HandlerCollection.current.get()
                 pairs = list(cur.handler_pairs) if cur is not None else []
-                open_roots = ov[4] if ov is not None else []
+                open_roots = (ov[4] if ov is not None else []) + (ov2[2] if ov2 is not None else [])
 
                 def origin(acc):
                     root = acc
@@ -224,6 +253,11 @@ def build(case):
                     if len(got_p) != len(exp_plain) or any(x != y for x, y in zip(got_p, exp_plain)):
                         soft(False, f"C09:events:plain-selector:{'extra' if len(got_p) > len(exp_plain) else 'missing-or-wrong'}:{sit}",
                              "`a_fn > a` did not receive exactly the calls made while its overlay was open")
+                if ov2 is not None:
+                    got_q = ov2[1]
+                    if len(got_q) != len(exp_o2) or any(x != y for x, y in zip(got_q, exp_o2)):
+                        soft(False, f"C09:events:second-overlay:{'extra' if len(got_q) > len(exp_o2) else 'missing-or-wrong'}:{sit}",
+                             "the second overlay's `a_fn > a` did not receive exactly the calls made while it was open")
             if twin:
                 require(not (ncalls >= 1 and not fails), "vacuity twin", {"fp": "twin"})
                 return
@@ -236,6 +270,11 @@ def build(case):
                         g[0].close()
                     except Exception:
                         pass
+            if ov2 is not None:
+                try:
+                    ov2[0].__exit__(None, None, None)
+                except Exception:
+                    pass
             if ov is not None:
                 for pr in (ov[1], ov[0]):
                     try:
@@ -320,10 +359,14 @@ def cases(tier, seed):
                            "params": {"kind": "top", "n": n, "first": first, "second": second, "third": third},
                            "budget_s": 5000 if th else 250, "per_path_s": 30})
     # permanently tooled functions: generators that start while no overlay is open
-    for (f1, f2, f3, nn) in ((1, 3, 5, 5), (1, 4, 6, 5), (3, 5, 1, 5), (3, 5, 5, 5), (3, 4, 5, 5), (3, 1, 5, 5), (3, 5, 9, 4), (3, 5, 7, 4), (3, 4, 6, 4)):
+    for (f1, f2, f3, nn) in ((1, 3, 5, 5), (1, 4, 6, 5), (3, 5, 1, 5), (3, 5, 5, 5), (3, 4, 5, 5), (3, 1, 5, 5), (3, 5, 9, 4), (3, 5, 7, 4), (3, 4, 6, 4), (4, 6, 1, 5), (4, 6, 6, 4)):
         cs.append({"id": f"pretooled:ops={f1},{f2},{f3}:n={nn}",
                    "params": {"kind": "top", "n": nn + (1 if th else 0), "first": f1, "second": f2, "third": f3, "pretooled": True},
                    "budget_s": 5000 if th else 250, "per_path_s": 30})
+    # a second, independently toggled overlay (ops 10/11) around generators that are suspended under the first one
+    for (f1, f2, f3) in ((1, 3, 5), (1, 4, 6), (10, 4, 6), (10, 3, 5)):
+        cs.append({"id": f"two:ops={f1},{f2},{f3}", "params": {"kind": "top", "n": 6 if th else 5, "first": f1, "second": f2, "third": f3,
+                                                              "two": True}, "budget_s": 5000 if th else 250, "per_path_s": 30})
     if not th:
         # one level deeper where it matters most: a generator created and advanced under an open overlay, then two more steps
         for (f1, f2, f3) in ((1, 3, 5), (1, 4, 6), (3, 1, 5), (1, 3, 3)):
